@@ -90,7 +90,7 @@ def decode(data: bytes) -> dict:
     simple = d.p(0.35)
     table = SIMPLE if simple else TASKPOOL
     names = sorted(table)
-    case: Dict[str, Any] = {"cls": "SimpleTaskPool" if simple else "TaskPool", "size": d.pick([None, 2, 3]), "width": d.pick([80, 80, 40, 120, 20]),
+    case: Dict[str, Any] = {"cls": "SimpleTaskPool" if simple else "TaskPool", "size": d.pick([None, 2, 3]), "width": d.pick([80, 80, 40, 120, 20, None]),
                             "nsess": d.pick([1, 1, 2, 3]), "lines": []}
     if simple:
         case["sfunc"] = d.pick(["quick", "gated"])
